@@ -1,14 +1,22 @@
 _Q = 'xdoctest.doctest_example:DocTest.'
 PROPERTY = {
     'id': 'C08',
-    'contract_modules': ['doctest_example', 'doctest_part', 'parser'],
-    'functions': [_Q + 'failed_line_offset', _Q + 'failed_lineno',
+    'contract_modules': ['doctest_example', 'util_stream', 'checker', 'doctest_part', 'runner', 'parser'],
+    'functions': [_Q + 'failed_line_offset', _Q + 'failed_lineno', _Q + 'run',
+                  _Q + '_post_run', _Q + '_pre_run', _Q + '_import_module', _Q + '_test_globals', _Q + '_color', _Q + '_print_captured',
+                  _Q + 'repr_failure', _Q + 'node', 'xdoctest.doctest_example:DoctestConfig.getvalue',
+                  'xdoctest.directive:RuntimeState.__init__', 'xdoctest.directive:RuntimeState.set_report_style',
+                  'xdoctest.directive:RuntimeState.update', 'xdoctest.doctest_part:DoctestPart.directives',
+                  'xdoctest.doctest_part:DoctestPart.has_any_code', 'xdoctest.doctest_part:DoctestPart.compilable_source',
+                  'xdoctest.utils.util_str:codeblock',
                   'xdoctest.parser:DoctestParser._package_groups#offsets', 'xdoctest.parser:DoctestParser._package_chunk',
                   'xdoctest.core:parse_freeform_docstr_examples#offsets', 'xdoctest.parser:DoctestParser.parse#items',
                   'xdoctest.parser:DoctestParser.__init__', 'xdoctest.core:parse_freeform_docstr_examples.doctest_from_parts', 'xdoctest.doctest_example:DocTest.__init__', 'xdoctest.core:parse_google_docstr_examples#blocks',
                   'xdoctest.docstr.docscrape_google:split_google_docblocks', 'xdoctest.doctest_example:DocTest._parse', 'xdoctest.core:parse_freeform_docstr_examples.doctest_from_parts#call'],
     'clauses': {
-        'P': ['failed_line_offset / failed_lineno: import failure -> the doctest line; got/want mismatch -> first line of the want '
+        'P': ["DocTest.run: failed_tb_lineno is the line of the FIRST traceback entry of this doctest's pseudo file (tb_lineno of that "
+              "entry), which failed_line_offset then adds to the part offset",
+              'failed_line_offset / failed_lineno: import failure -> the doctest line; got/want mismatch -> first line of the want '
               '(part offset + number of source lines); repr/await failure -> last source line; ordinary exception -> part offset + '
               'traceback line - 1; None iff nothing failed; for every exception class',
               '_package_groups: the line counter handed to _package_chunk is the number of lines of all earlier chunks; slice_example: a '
